@@ -2,7 +2,7 @@
    correspondence check.  ExtrOcamlBasic only: bool/option/unit/prod/list/sumbool/sumor map to
    the OCaml builtins; N, positive, nat stay the extracted inductive types. *)
 From Coq Require Import Extraction ExtrOcamlBasic.
-From Pocket Require Import Bytes Layout Access MatchSpec Hex Hll.
+From Pocket Require Import Bytes Layout Access MatchSpec Hex Hll Ctor.
 Extraction "../runner/model.ml"
   N.of_nat N.to_nat N.add N.mul N.div N.modulo N.eqb N.ltb N.leb N.sub
   len beq
@@ -12,4 +12,5 @@ Extraction "../runner/model.ml"
   tags_iter_all tags_get_string tags_get_value tags_matches
   ev_kind ev_created ev_id ev_pk ev_sig ev_tags ev_content ev_delineate
   fl_ids fl_authors fl_kinds fl_tags fl_limit fl_since fl_until
+  tags_from_parts event_from_parts filter_from_parts
   read_hex write_hex hll_new add_element merge from_hex to_hex zero_count.
